@@ -83,14 +83,34 @@ Proof.
   intros l z R I. unfold decode. rewrite (reads_decimal_decode_raw l z R), I. reflexivity.
 Qed.
 
+(* seconds that fit a Duration are not wrapped ... *)
+Lemma seconds_fit : forall x, secs_fit x -> seconds x = x * second.
+Proof.
+  intros x H. unfold secs_fit in H. unfold seconds, wrap64, second.
+  rewrite Z.mod_small by lia. lia.
+Qed.
+
+(* ... and (for an int64 number of seconds) only those: outside [secs_fit] the
+   Duration is NOT the configured number of seconds *)
+Lemma seconds_fit_only : forall x,
+  in_int64 x = true -> seconds x = x * second -> secs_fit x.
+Proof.
+  intros x I H. unfold secs_fit. unfold seconds, wrap64, second in H.
+  unfold in_int64 in I. apply andb_prop in I. destruct I as [I1 I2].
+  apply Z.leb_le in I1. apply Z.leb_le in I2.
+  pose proof (Z.mod_pos_bound (x * 1000000000 + 9223372036854775808) 18446744073709551616
+                ltac:(lia)) as B.
+  lia.
+Qed.
+
 (* the settings the constructor hands to the watcher are the numbers the texts
-   say (seconds for the three durations) *)
+   say (seconds for the three durations, when they fit a Duration) *)
 Lemma settings_of_decimal : forall ts c,
   settings_of Decimal ts = Some c ->
-  (forall x, reads_decimal (t_i ts) x -> cI c = x * second) /\
+  (forall x, reads_decimal (t_i ts) x -> secs_fit x -> cI c = x * second) /\
   (forall x, reads_decimal (t_n ts) x -> cN c = x) /\
-  (forall x, reads_decimal (t_p ts) x -> cP c = x * second) /\
-  (forall x, reads_decimal (t_c ts) x -> cC c = x * second).
+  (forall x, reads_decimal (t_p ts) x -> secs_fit x -> cP c = x * second) /\
+  (forall x, reads_decimal (t_c ts) x -> secs_fit x -> cC c = x * second).
 Proof.
   intros ts c H. unfold settings_of in H.
   destruct (decode Decimal (t_i ts)) as [i|] eqn:Ei; [|discriminate].
@@ -98,11 +118,11 @@ Proof.
   destruct (decode Decimal (t_p ts)) as [p|] eqn:Ep; [|discriminate].
   destruct (decode Decimal (t_c ts)) as [cd|] eqn:Ec; [|discriminate].
   injection H as <-. cbn [cI cN cP cC].
-  repeat split; intros x R.
-  - rewrite (reads_decimal_decode _ _ _ R Ei). reflexivity.
-  - rewrite (reads_decimal_decode _ _ _ R En). reflexivity.
-  - rewrite (reads_decimal_decode _ _ _ R Ep). reflexivity.
-  - rewrite (reads_decimal_decode _ _ _ R Ec). reflexivity.
+  split; [|split; [|split]].
+  - intros x R Fx. rewrite (reads_decimal_decode _ _ _ R Ei). exact (seconds_fit x Fx).
+  - intros x R. rewrite (reads_decimal_decode _ _ _ R En). reflexivity.
+  - intros x R Fx. rewrite (reads_decimal_decode _ _ _ R Ep). exact (seconds_fit x Fx).
+  - intros x R Fx. rewrite (reads_decimal_decode _ _ _ R Ec). exact (seconds_fit x Fx).
 Qed.
 
 Lemma run_env_some : forall v ts t0 script tr,
@@ -144,6 +164,9 @@ Proof.
   exists [], false, [0; 1; 0]. split; [constructor|]. split; [discriminate|].
   split; [repeat constructor; unfold is_dec_digit; lia|]. split; reflexivity.
 Qed.
+
+Lemma ten_fits : secs_fit 10.
+Proof. unfold secs_fit. cbn. lia. Qed.
 
 (* stable period "010": interval 4 s, N = 2, three unhealthy checks at 0, 4, 8 s *)
 Definition oct_stable_ts : texts := Texts [52] [50] txt_010 [48].
